@@ -94,7 +94,7 @@ func genText(g *genCtx) {
 				}
 				emit(Case{"k": "codec", "coding": coding, "text": t})
 			}
-			if coding == "gsm7p" {
+			if coding == "gsm7p" || coding == "gsm7u" {
 				// the end-of-message ambiguities and their neighbours: 7, 8, 9, 15, 16 septets ending in @ / CR
 				for _, L := range []int{7, 8, 9, 15, 16, 17} {
 					for _, last := range []int{0x40, 0x0d, 'a'} {
